@@ -130,6 +130,7 @@ PKGS = {  # abstract package id -> (import path, package name)
     "FM": (MOD + "/h/mock", "mock"),
     "FS": (MOD + "/h/sync", "sync"),
     "FC": (MOD + "/h/constraints", "constraints"),
+    "FD": (MOD + "/gopkg.in/go-dash.v3", "dash"),
     "Sio": ("io", "io"),
     "Scontext": ("context", "context"),
     "Stime": ("time", "time"),
@@ -138,7 +139,7 @@ PKGS = {  # abstract package id -> (import path, package name)
     "Sunsafe": ("unsafe", "unsafe"),
     "TM": ("github.com/stretchr/testify/mock", "mock"),
 }
-FOREIGN = ["FX", "FY", "FZ", "FV", "FM", "FS", "FC"]
+FOREIGN = ["FX", "FY", "FZ", "FV", "FM", "FS", "FC", "FD"]
 
 # abstract identifier -> Go identifier (identity unless listed; TLC cannot print non-ASCII)
 IDMAP = {"zze": "\u00e9", "Zze": "\u00c9", "zzo": "\u03c9", "Zzo": "\u03a9", "_nihon": "\u65e5\u672c",
@@ -184,6 +185,7 @@ LOCAL_TYPES = {
     "LC": "type LC interface{ ~int | ~string }",
     "LS": "type LS struct{}\n\nfunc (LS) String() string { return \"\" }",
     "LSI": "type LSI int\n\nfunc (LSI) String() string { return \"\" }",
+    "LL": "type LL int\n\nfunc (LL) Less(LL) bool { return false }\n\nfunc (LL) String() string { return \"\" }",
     "Number": "type Number interface{ ~int | ~int64 }",
     "LStr": "type LStr interface{ ~string }",
 }
@@ -384,10 +386,39 @@ def tparams_text(r, tps):
     return "[" + ", ".join(conc_ident(tp["n"]) + " " + r.t(tp["c"]) for tp in tps) + "]"
 
 
+DOT_OK = ("Sio", "Scontext", "Stime", "Sfmt")      # their exported names never clash with what a source file declares
+
+
+def import_style(prog):
+    """how the SOURCE file spells its imports (must not matter to mockery): explicit aliases, the packages' own names where
+    unambiguous, or a dot import of one stdlib package.  A pure function of the program id."""
+    import zlib
+    return ("alias", "natural", "dot")[zlib.crc32(prog["pid"].encode()) % 3]
+
+
 def render_source(prog, pkgname, extra_terms=(), all_decls=False):
     """the source file of the package under test for one program (extra_terms: types the assertion files will
     mention, e.g. type arguments, whose local declarations must exist)"""
-    r = Renderer(src_qual)
+    style = import_style(prog)
+    used0 = set()
+    for d_ in prog["decls"].values():
+        for t_ in decl_terms(d_):
+            walk_terms(t_, lambda x: used0.add(x["p"]) if x["k"] in ("named", "inst") and x["p"] != "SRC" else None)
+    local_idents = set(prog["decls"]) | set(LOCAL_TYPES) | {pkgname}
+    natural = {}
+    if style in ("natural", "dot"):
+        names = {}
+        for p_ in sorted(used0 | {"FX"}):
+            names.setdefault(PKGS[p_][1], []).append(p_)
+        natural = {ps[0]: n_ for n_, ps in names.items() if len(ps) == 1 and n_ not in local_idents and n_ not in ("mock", "sync", "io")}
+    dot = next((p_ for p_ in sorted(used0) if p_ in DOT_OK), None) if style == "dot" else None
+
+    def squal(p_):
+        if p_ == "SRC" or p_ == dot:
+            return ""
+        return natural.get(p_, SRC_ALIAS.get(p_, ""))
+    r = Renderer(squal)
+    r._dot, r._natural = dot, natural
     for t in extra_terms:
         r.t(t)
     r.used.clear()
@@ -425,9 +456,16 @@ def render_source(prog, pkgname, extra_terms=(), all_decls=False):
         txt = LOCAL_TYPES.get(n) or "type %s struct{ X int }" % conc_ident(n)
         if "{FX}" in txt:
             r.used.add("FX")
-            txt = txt.replace("{FX}", SRC_ALIAS["FX"])
+            txt = txt.replace("{FX}", squal("FX"))
         ltypes.append(txt)
-    imps = ["\t%s \"%s\"" % (SRC_ALIAS[p], PKGS[p][0]) for p in sorted(r.used)]
+    imps = []
+    for p in sorted(r.used):
+        if p == dot:
+            imps.append("\t. \"%s\"" % PKGS[p][0])
+        elif p in natural:
+            imps.append("\t\"%s\"" % PKGS[p][0])
+        else:
+            imps.append("\t%s \"%s\"" % (SRC_ALIAS[p], PKGS[p][0]))
     out = ["// source of program %s" % prog["pid"], "package " + pkgname, ""]
     if imps:
         out += ["import ("] + imps + [")", ""]
@@ -708,6 +746,8 @@ def assign_configs(ctx, sp, pids, slots_for, prefer=None):
         prog = sp.progs[pid]["prog"]
         for (tmpl, inpkg) in slots_for(prog):
             pool = bykey[(tmpl, inpkg)] if inpkg is not None else bykey[(tmpl, True)] + bykey[(tmpl, False)]
+            if prog.get("extpkg"):      # a package outside the module: the mock can only live in a directory of its own
+                pool = [c for c in pool if not c["expect"]["samedir"]]
             want_fmt = rng.choice(fmts)
             cands = [c for c in rng.sample(pool, min(60, len(pool))) if c["cfg"]["fmt"] == want_fmt] or rng.sample(pool, 10)
             if prefer:
@@ -826,8 +866,11 @@ def build_worlds(ctx, sp, pairs, all_decls=None):
         cs.extra = {"ens": ens}
         cs.world = d
         cs.dir = "c/" + cs.cid
-        cs.pkgpath = MOD + "/" + cs.dir
-        cs.pkgname = pkgname_for(cs.prog, cs.cid)
+        ext = cs.prog.get("extpkg")
+        cs.pkgpath = PKGS[ext][0] if ext else MOD + "/" + cs.dir
+        cs.pkgname = PKGS[ext][1] if ext else pkgname_for(cs.prog, cs.cid)
+        if ext and c["expect"]["samedir"]:
+            raise MachineryError("a package outside the module can only be mocked into a separate directory: " + pid)
         cs.outdir, cs.outfile, cs.outpkg = placement_paths(cfg["place"], cs.dir, cs.pkgname)
         cs.target = conc_ident(cs.prog["target"])
         exported = cs.target[:1].upper() == cs.target[:1] and cs.target[:1].lower() != cs.target[:1]
@@ -835,6 +878,9 @@ def build_worlds(ctx, sp, pairs, all_decls=None):
         cs.mockery = cs.typecheck = cs.info = None
         cs.srcok = None
         (d / cs.dir).mkdir(parents=True)
+        if ext:
+            cases.append(cs)
+            continue
         extra = [a for n_, tas in sp.progs[pid].get("alltargs", {}).items() if cs.prog["decls"][n_]["tps"] for ta in tas for a in ta]
         (d / cs.dir / "src.go").write_text(render_source(cs.prog, cs.pkgname, extra, bool(all_decls and all_decls(cs.prog))))
         cases.append(cs)
@@ -856,6 +902,25 @@ def mockery_entry(cs, template=None, extra=None, names=None):
     return {"config": conf, "interfaces": ifaces}
 
 
+def ekey(cs):
+    """key of a case in an entries dict: its package path; cases that share a package path (packages outside the module)
+    get a #suffix and are never put into the same mockery configuration"""
+    return cs.pkgpath + ("#" + cs.cid if cs.prog.get("extpkg") else "")
+
+
+def bins(entries, size):
+    out = []
+    for k, v in sorted(entries.items()):
+        real = k.split("#")[0]
+        b = next((b_ for b_ in out if len(b_) < size and all(x.split("#")[0] != real for x in b_)), None) if "#" in k else \
+            next((b_ for b_ in out[-1:] if len(b_) < size and all(x.split("#")[0] != real for x in b_)), None)
+        if b is None:
+            b = {}
+            out.append(b)
+        b[k] = v
+    return out
+
+
 def run_mockery_chunk(ctx, world, entries, tag, max_fail=25, traces=None):
     """entries: {pkgpath: (key, entry)}.  Runs mockery; when a run fails, attributes the failure to the file mockery
     was working on (hook trace: last FileBegin without Write), drops that entry and re-runs.  -> {key: (ok, detail)}"""
@@ -865,7 +930,7 @@ def run_mockery_chunk(ctx, world, entries, tag, max_fail=25, traces=None):
     rounds = 0
     while todo:
         rounds += 1
-        conf = {"force-file-write": True, "log-level": "error", "packages": {p: e for p, (k, e) in todo.items()}}
+        conf = {"force-file-write": True, "log-level": "error", "packages": {p.split("#")[0]: e for p, (k, e) in todo.items()}}
         cf = world / (".mockery-%s.yml" % tag)
         cf.write_text(json.dumps(conf))
         r = run_mockery(ctx, world, ["--config", str(cf)], timeout=600)
@@ -917,9 +982,13 @@ def run_mockery_chunk(ctx, world, entries, tag, max_fail=25, traces=None):
     return res
 
 
+def source_text(cs):
+    f = cs.world / cs.dir / "src.go"
+    return f.read_text() if f.exists() else "(package %s outside the module: no source file written)" % cs.pkgpath
+
+
 def run_chunks(ctx, world, entries, prefix, chunk=50, par=6, traces=None):
-    items = sorted(entries.items())
-    chunks = [dict(items[i:i + chunk]) for i in range(0, len(items), chunk)]
+    chunks = bins(entries, chunk)
     res = {}
     with concurrent.futures.ThreadPoolExecutor(max_workers=par) as ex:
         futs = [ex.submit(run_mockery_chunk, ctx, world, ch, "%s%d" % (prefix, i), 25, traces) for i, ch in enumerate(chunks)]
@@ -979,13 +1048,14 @@ def validate_run_traces(ctx, traces, selftest=True):
 ERR_RE = re.compile(r"^(?:vet: )?(?:\./)?([^\s:]+\.go):(\d+):(\d+): (.*)$")
 
 
-def typecheck(ctx, world, label="", mode="vet"):
+def typecheck(ctx, world, label="", mode="vet", patterns=None):
     """mode "build": go build ./... (sources only, no test files); mode "vet": go vet with one cheap analyzer -- the
     type checker runs on every package incl. its _test variants and external test packages, dependencies are compiled.
     -> {relative dir: first error line}, raw"""
     errs = {}
     raw = []
-    for args in ([["build", "./..."]] if mode == "build" else [["vet", "-framepointer", "./..."]]):
+    pats = list(patterns) if patterns else ["./..."]
+    for args in ([["build", *pats]] if mode == "build" else [["vet", "-framepointer", *pats]]):
         p = subprocess.run(["go", *args], cwd=world, env=cw_env(ctx), capture_output=True, text=True, timeout=1800)
         raw.append(p.stdout + p.stderr)
         cur = None
